@@ -223,6 +223,257 @@ Proof.
     right; cbn in *; tauto.
 Qed.
 
+
+(* ---- a registration commutes with static files and static trees ------------------------------ *)
+(* Neither side reads the other's table: declare_static_files / register_static_tree never look at
+   the registrations, and register_nglob looks at the build products only, which a static
+   declaration neither adds nor removes. Multi-path static requests included. *)
+
+Definition lift (gs : list glob) (r : res state) : res state :=
+  match r with Ok s => Ok (with_globs s gs) | Err m => Err m end.
+
+Lemma declare_file_with_globs c r st gs p :
+  declare_file ow c r (with_globs st gs) p = lift gs (declare_file ow c r st p).
+Proof.
+  unfold declare_file.
+  destruct (role_eqb r RVolatile && ends_with_c SLASH p); [reflexivity|].
+  change (find_owner ow (with_globs st gs) p) with (find_owner ow st p).
+  destruct c as [|l|t]; cbn [bind].
+  - destruct (find_owner ow st p) as [[[t0 tc]|]|]; cbn [bind]; try reflexivity.
+    + destruct (role_eqb r RStatic); reflexivity.
+    + destruct (is_prefix stepup_prefix p); [reflexivity|]. destruct (bad_name p); [reflexivity|].
+      cbn [claims with_globs loose]. destruct (lookup p (claims st)); [reflexivity|].
+      destruct (role_eqb r RVolatile && mem_str p (loose st)); reflexivity.
+  - destruct (find_owner ow st p) as [[[t0 tc]|]|]; cbn [bind]; try reflexivity.
+    + destruct (role_eqb r RStatic); reflexivity.
+    + destruct (is_prefix stepup_prefix p); [reflexivity|]. destruct (bad_name p); [reflexivity|].
+      cbn [claims with_globs loose]. destruct (lookup p (claims st)); [reflexivity|].
+      destruct (role_eqb r RVolatile && mem_str p (loose st)); reflexivity.
+  - destruct (is_prefix stepup_prefix p); [reflexivity|]. destruct (bad_name p); [reflexivity|].
+    cbn [claims with_globs loose]. destruct (lookup p (claims st)); [reflexivity|].
+    destruct (role_eqb r RVolatile && mem_str p (loose st)); [|reflexivity].
+    destruct (phrase_of (CTree t)); reflexivity.
+Qed.
+
+Lemma fold_declare_with_globs (f : creator * str -> creator * role) l st gs :
+  fold_res (fun s dp => declare_file ow (fst dp) RStatic s (snd dp)) l (with_globs st gs) =
+  lift gs (fold_res (fun s (dp : creator * str) => declare_file ow (fst dp) RStatic s (snd dp)) l st).
+Proof.
+  revert st. induction l as [|dp l IH]; intros st; cbn [fold_res]; [reflexivity|].
+  rewrite declare_file_with_globs.
+  destruct (declare_file ow (fst dp) RStatic st (snd dp)) as [s1|]; cbn [lift bind]; [apply IH|reflexivity].
+Qed.
+
+Lemma static_checks_with_globs c st gs ps :
+  static_checks ow c (with_globs st gs) ps = static_checks ow c st ps.
+Proof. induction ps as [|p ps IH]; cbn [static_checks]; [reflexivity|]. now rewrite IH. Qed.
+
+Lemma declare_static_files_with_globs c st gs ps :
+  declare_static_files ow c (with_globs st gs) ps = lift gs (declare_static_files ow c st ps).
+Proof.
+  unfold declare_static_files. rewrite static_checks_with_globs.
+  destruct (static_checks ow c st (sort_uniq ps)) as [todo|]; cbn [bind]; [|reflexivity].
+  apply (fold_declare_with_globs (fun x => (fst x, RStatic))).
+Qed.
+
+Lemma register_tree_with_globs c path st gs :
+  register_tree ow c path (with_globs st gs) = lift gs (register_tree ow c path st).
+Proof.
+  unfold register_tree.
+  change (require_step (with_globs st gs) c) with (require_step st c).
+  destruct (require_step st c); cbn [bind]; [|reflexivity].
+  destruct (str_eqb path stepup_dir || is_prefix stepup_prefix path); [reflexivity|].
+  destruct (str_eqb (with_slash path) [46; SLASH] || str_eqb (with_slash path) []); [reflexivity|].
+  destruct (str_eqb (with_slash path) [SLASH]); [reflexivity|].
+  change (find_owner ow (with_globs st gs) (with_slash path)) with (find_owner ow st (with_slash path)).
+  destruct (find_owner ow st (with_slash path)) as [[[t tc]|]|]; cbn [bind]; [| |reflexivity].
+  - destruct (creator_eqb tc c); [reflexivity|]. destruct (str_eqb t (with_slash path)); [|reflexivity].
+    destruct (phrase_of tc) as [x|]; [destruct (phrase_of c) as [y|]|]; try reflexivity. destruct (sort2_str x y). reflexivity.
+  - cbn [trees claims loose steps sinks with_globs globs].
+    destruct (existsb _ (trees st)); [reflexivity|].
+    destruct (min_entry _) as [[q cl]|]; [destruct (negb (role_eqb (c_role cl) RStatic)); reflexivity|].
+    match goal with |- declare_static_files ow ?c1 ?s1 ?l = lift gs (declare_static_files ow ?c1 ?s2 ?l) =>
+      change s1 with (with_globs s2 gs) end.
+    apply declare_static_files_with_globs.
+Qed.
+
+Definition is_static_or_tree (r : req) : bool :=
+  match r with RqStatic _ _ | RqTree _ _ => true | _ => false end.
+
+Lemma step_with_globs st gs r :
+  is_static_or_tree r = true -> step gm ow gr (with_globs st gs) r = lift gs (step gm ow gr st r).
+Proof.
+  destruct r; try discriminate; intros _; cbn [step].
+  - change (require_step (with_globs st gs) c) with (require_step st c).
+    destruct (require_step st c); cbn [bind]; [|reflexivity]. apply declare_static_files_with_globs.
+  - apply register_tree_with_globs.
+Qed.
+
+(* the build products of a state, in table order *)
+Definition is_prod (pc : str * claim) : bool := negb (role_eqb (c_role (snd pc)) RStatic).
+Definition prods (st : state) : list (str * claim) := filter is_prod (claims st).
+
+Definition prod_same (a b : state) : Prop :=
+  prods b = prods a /\ (forall p, is_product b p = is_product a p) /\ steps b = steps a /\ globs b = globs a.
+
+Lemma prod_same_refl a : prod_same a a.
+Proof. repeat split. Qed.
+
+Lemma prod_same_trans a b c : prod_same a b -> prod_same b c -> prod_same a c.
+Proof.
+  intros [A1 [A2 [A3 A4]]] [B1 [B2 [B3 B4]]].
+  split; [congruence|split; [intros p; now rewrite B2, A2|split; congruence]].
+Qed.
+
+Lemma declare_static_prod_same c st p st' :
+  declare_file ow c RStatic st p = Ok st' -> prod_same st st'.
+Proof.
+  intros H. assert (Hs : st' = set_claim st p (mkClaim RStatic c) /\ lookup p (claims st) = None).
+  { unfold declare_file in H. cbn [role_eqb andb] in H.
+    match type of H with bind ?x _ = _ => destruct x; cbn [bind] in H; [|discriminate] end.
+    destruct (is_prefix stepup_prefix p); [discriminate|]. destruct (bad_name p); [discriminate|].
+    destruct (lookup p (claims st)) eqn:El; [discriminate|]. inversion H. split; reflexivity. }
+  destruct Hs as [-> Hl]. repeat split.
+  intros q. unfold is_product, set_claim. cbn [claims lookup].
+  destruct (str_eqb q p) eqn:E; [|reflexivity].
+  apply str_eqb_eq in E. subst q. rewrite Hl. reflexivity.
+Qed.
+
+Lemma fold_static_prod_same l st st' :
+  fold_res (fun s (dp : creator * str) => declare_file ow (fst dp) RStatic s (snd dp)) l st = Ok st' ->
+  prod_same st st'.
+Proof.
+  revert st. induction l as [|dp l IH]; intros st H; cbn [fold_res] in H.
+  - inversion H. apply prod_same_refl.
+  - destruct (declare_file ow (fst dp) RStatic st (snd dp)) as [s1|] eqn:E; cbn [bind] in H; [|discriminate].
+    eapply prod_same_trans; [eapply declare_static_prod_same; eauto|auto].
+Qed.
+
+Lemma declare_static_files_prod_same c st ps st' :
+  declare_static_files ow c st ps = Ok st' -> prod_same st st'.
+Proof.
+  unfold declare_static_files. intros H.
+  destruct (static_checks ow c st (sort_uniq ps)) as [todo|]; cbn [bind] in H; [|discriminate].
+  eapply fold_static_prod_same; eauto.
+Qed.
+
+Lemma lookup_map_under {A} (P : str -> bool) (g : A -> A) l k :
+  lookup k (map (fun pc : str * A => if P (fst pc) then (fst pc, g (snd pc)) else pc) l) =
+  if P k then option_map g (lookup k l) else lookup k l.
+Proof.
+  induction l as [|[k' v] l IH]; cbn [map lookup fst snd]; [destruct (P k); reflexivity|].
+  destruct (P k') eqn:Ek'; cbn [lookup fst snd];
+    destruct (str_eqb k k') eqn:E; try exact IH;
+    apply str_eqb_eq in E; subst k'; rewrite Ek'; reflexivity.
+Qed.
+
+Lemma filter_is_prod_handover d l :
+  (forall pc : str * claim, In pc l -> is_prefix d (fst pc) = true -> c_role (snd pc) = RStatic) ->
+  filter is_prod (map (fun pc : str * claim => if is_prefix d (fst pc)
+                         then (fst pc, mkClaim (c_role (snd pc)) (CTree d)) else pc) l) = filter is_prod l.
+Proof.
+  induction l as [|pc l IH]; intros Hst; cbn [map filter]; [reflexivity|].
+  assert (IH' := IH (fun x Hx => Hst x (or_intror Hx))).
+  destruct (is_prefix d (fst pc)) eqn:Ep.
+  - assert (H1 : is_prod (fst pc, mkClaim (c_role (snd pc)) (CTree d)) = false)
+      by (unfold is_prod; cbn [snd c_role]; rewrite (Hst pc (or_introl eq_refl) Ep); reflexivity).
+    assert (H2 : is_prod pc = false) by (unfold is_prod; rewrite (Hst pc (or_introl eq_refl) Ep); reflexivity).
+    rewrite H1, H2. exact IH'.
+  - destruct (is_prod pc); now rewrite IH'.
+Qed.
+
+Lemma register_tree_prod_same c path st st' :
+  register_tree ow c path st = Ok st' -> prod_same st st'.
+Proof.
+  unfold register_tree. intros H.
+  destruct (require_step st c); cbn [bind] in H; [|discriminate].
+  destruct (str_eqb path stepup_dir || is_prefix stepup_prefix path); [discriminate|].
+  destruct (str_eqb (with_slash path) [46; SLASH] || str_eqb (with_slash path) []); [discriminate|].
+  destruct (str_eqb (with_slash path) [SLASH]); [discriminate|].
+  set (d := with_slash path) in *.
+  destruct (find_owner ow st d) as [[[t tc]|]|]; cbn [bind] in H; try discriminate.
+  - destruct (creator_eqb tc c); [inversion H; apply prod_same_refl|].
+    destruct (str_eqb t d); [|discriminate].
+    destruct (phrase_of tc) as [x|]; [destruct (phrase_of c) as [y|]|]; try discriminate.
+    destruct (sort2_str x y). discriminate.
+  - destruct (existsb _ (trees st)); [discriminate|].
+    destruct (min_entry _) as [[q cl]|] eqn:Emin; [destruct (negb (role_eqb (c_role cl) RStatic)); discriminate|].
+    apply min_entry_none in Emin.
+    (* every claim under d is static *)
+    assert (Hst : forall pc, In pc (claims st) -> is_prefix d (fst pc) = true -> c_role (snd pc) = RStatic).
+    { intros pc Hin Hp. assert (Hu : In pc (filter (fun pc => is_prefix d (fst pc)) (claims st))) by (apply filter_In; auto).
+      pose proof (filter_nil _ _ Emin pc Hu) as Hf. unfold offending in Hf.
+      apply orb_false_iff in Hf as [Hf _]. apply negb_false_iff in Hf. now apply role_eqb_eq. }
+    eapply prod_same_trans; [|eapply declare_static_files_prod_same; exact H].
+    unfold prod_same, prods. cbn [claims steps globs]. repeat split.
+    + apply filter_is_prod_handover. exact Hst.
+    + intros p. unfold is_product. cbn [claims].
+      rewrite (lookup_map_under (is_prefix d) (fun cl => mkClaim (c_role cl) (CTree d))).
+      destruct (is_prefix d p) eqn:Ep; [|reflexivity].
+      destruct (lookup p (claims st)) as [cl|] eqn:El; [|reflexivity]. cbn [option_map c_role].
+      assert (Hin : In (p, cl) (claims st)).
+      { clear -El. induction (claims st) as [|[k v] l IH]; cbn in *; [discriminate|].
+        destruct (str_eqb p k) eqn:E; [apply str_eqb_eq in E; inversion El; subst; now left|right; auto]. }
+      pose proof (Hst (p, cl) Hin Ep) as Hrs. cbn [snd] in Hrs. rewrite Hrs. reflexivity.
+Qed.
+
+Lemma step_prod_same st r st' :
+  is_static_or_tree r = true -> step gm ow gr st r = Ok st' -> prod_same st st'.
+Proof.
+  destruct r; try discriminate; intros _ H; cbn [step] in H.
+  - destruct (require_step st c); cbn [bind] in H; [|discriminate]. eapply declare_static_files_prod_same; eauto.
+  - eapply register_tree_prod_same; eauto.
+Qed.
+
+Lemma filter_prodf key l :
+  filter (fun pc : str * claim => negb (role_eqb (c_role (snd pc)) RStatic) && gm key (fst pc)) l =
+  filter (fun pc => gm key (fst pc)) (filter is_prod l).
+Proof.
+  induction l as [|pc l IH]; cbn [filter]; [reflexivity|]. unfold is_prod at 1.
+  destruct (negb (role_eqb (c_role (snd pc)) RStatic)); cbn [andb filter]; [destruct (gm key (fst pc))|]; now rewrite IH.
+Qed.
+
+Lemma first_product_same a b ms : (forall p, is_product b p = is_product a p) -> first_product b ms = first_product a ms.
+Proof. intros H. induction ms as [|m ms IH]; cbn [first_product]; [reflexivity|]. now rewrite H, IH. Qed.
+
+(* register_nglob decides the same on two states with the same products and steps *)
+Lemma register_glob_prod_same s pat subs ms a b :
+  prod_same a b ->
+  register_glob gm gr s pat subs ms b =
+  match register_glob gm gr s pat subs ms a with
+  | Ok _ => Ok (with_globs b (globs b ++ [row_of s pat subs ms]))
+  | Err m => Err m
+  end.
+Proof.
+  intros [Hp [Hi [Hs Hg]]]. unfold register_glob.
+  assert (Hr : require_step b (CStep s) = require_step a (CStep s)).
+  { unfold require_step, step_exists. now rewrite Hs. }
+  rewrite Hr. destruct (require_step a (CStep s)); cbn [bind]; [|reflexivity].
+  rewrite (first_product_same a b _ Hi), !filter_prodf. fold (prods a) (prods b). rewrite Hp.
+  destruct (if gr then _ else _) as [[q cl]|]; [reflexivity|].
+  destruct (find_first _ _); [reflexivity|]. rewrite pre_delete_none. reflexivity.
+Qed.
+
+(* Either order, glob versus static files (ANY list of paths) and glob versus static tree, any
+   creators, any `ow gr`, from ANY state (no invariant needed): each acceptable on its own =>
+   accepted in both orders with the SAME final state. *)
+Theorem glob_static_tree_commute st x s pat subs ms :
+  is_static_or_tree x = true ->
+  accepted (step gm ow gr st (RqGlob s pat subs ms)) = true ->
+  accepted (step gm ow gr st x) = true ->
+  both (run gm ow gr st [RqGlob s pat subs ms; x]) (run gm ow gr st [x; RqGlob s pat subs ms]) /\
+  accepted (run gm ow gr st [x; RqGlob s pat subs ms]) = true.
+Proof.
+  intros Hx H1 H2. rewrite !run2.
+  destruct (step gm ow gr st x) as [st'|] eqn:Ex; [|discriminate H2].
+  cbn [step] in H1 |- *.
+  destruct (register_glob gm gr s pat subs ms st) as [sg|] eqn:Eg; [|discriminate H1].
+  cbn [bind]. rewrite (register_glob_ok _ _ _ _ _ _ Eg), (step_with_globs _ _ _ Hx), Ex. cbn [lift].
+  pose proof (step_prod_same _ _ _ Hx Ex) as Hps.
+  rewrite (register_glob_prod_same s pat subs ms st st' Hps), Eg.
+  destruct Hps as [_ [_ [_ Hg]]]. rewrite Hg. cbn [both accepted]. split; reflexivity.
+Qed.
+
 End Registrations.
 
 (* Two registrations of one pattern by one step with different constraints are two rows. *)
